@@ -357,6 +357,18 @@ StaticWhy(p) ==
   ELSE ""
 
 (***************************************************************************)
+(* Floats outside the dyadic model (any magnitude, results of arithmetic).  *)
+(* The reference semantics has no text for them, but the property still     *)
+(* demands that the Go side prints a finite number as JavaScript does.      *)
+(* The harness describes the printed value by its class                     *)
+(*   [finite, negzero, use: "print" | "concat" | other]                     *)
+(* and the specification decides from the class alone whether the two back  *)
+(* ends must agree: finite, not negative zero (JS prints 0, Go -0), printed *)
+(* or concatenated to a string (inside lists/maps it is outside anyway).    *)
+(***************************************************************************)
+FloatClassInSubset(cls) == cls.finite /\ ~cls.negzero /\ cls.use \in {"print", "concat"}
+
+(***************************************************************************)
 (* Plural rules of the catalogues the harness installs (the same function  *)
 (* is given to Go as Bundle.PluralCase and to JS as soy.$$pluralIndex).    *)
 (***************************************************************************)
